@@ -138,6 +138,10 @@ def run(chk, driver, tier):
         # theorem's conclusion evaluated on each such instance: a false instance would mean the executable definitions the
         # driver runs are not the ones the theorem is about
         chk.count("tree_wf" if got.get("wf") else "tree_not_wf")
+        # inside the domain of the PROVED tie tree = string surgery (Props/C02Tie.lean)?  There the agreement just checked is a theorem;
+        # outside it (adjacency like `0MM…`, a part name inside another with a different field) it stays a per-pattern check
+        chk.count("tok_safe" if got.get("tok_safe") else "not_tok_safe")
+        chk.count("pep_tok_safe" if got.get("pep_tok_safe") else "pep_not_tok_safe")
         if got.get("in_domain") and got.get("anchored"):
             chk.count("in_theorem_domain")
             if not got.get("theorem_instance"):
